@@ -7,7 +7,7 @@
 use crate::dev::{can_eq, show_can, AnyLink, CanUnit, Dev, LinkKind, TxFault, TxPolicy, Wire};
 use crate::gen::{fill_pattern, gen_packet, SizeCfg};
 use crate::link_hostile::{encode, frames_of, panic_site, Unit};
-use crate::scenario::{fail, send, Outcome, Tier};
+use crate::scenario::{fail, Outcome, Tier};
 use crate::sim::{hex, show_packet, Crash, Sim};
 use ross_protocol::packet::Packet;
 
@@ -225,7 +225,7 @@ pub fn run(sim: &Sim, prop: &str, tier: Tier) -> Outcome {
             let w = wire.borrow();
             (w.tx_hard_errors, w.tx_flush_errors, w.tx_displaced, w.tx_interrupted + w.tx_zero, w.tx_wb_total, w.tx_short)
         };
-        let res = send(sim, "tx", &mut tx, packet);
+        let res = crate::scenario::send_on(sim, "tx", &mut tx, packet, &back);
         let w = wire.borrow();
         let hard_w = w.tx_hard_errors - before.0;
         let hard_f = w.tx_flush_errors - before.1;
